@@ -1121,7 +1121,13 @@ impl CellProvider for Storage {
                         block_hash,
                         block_epoch: header.epoch(),
                         block_number,
-                        index: tx_index as usize,
+                        // a fetched transaction doesn't know its index in the block, but the
+                        // verifiers only use it to tell if the cell is from a cellbase
+                        index: if tx.is_cellbase() {
+                            0
+                        } else {
+                            tx_index as usize
+                        },
                     }),
                     data_bytes: output_data.len() as u64,
                     mem_cell_data: Some(output_data),
